@@ -5,9 +5,9 @@ package main
 
 import (
 	"encoding/json"
-	"go/types"
 	"flag"
 	"fmt"
+	"go/types"
 	"os"
 	"runtime/debug"
 	"sort"
